@@ -1,13 +1,12 @@
 (* Request dispatcher of the extracted model runner (glue for the
    correspondence check; no theorem depends on this file). *)
 From GB Require Import Base.Prelude Base.DecText Base.Sexp.
-From GB Require Import Model.Header Spec.EncHeader.
+From GB Require Import Model.Header Spec.EncHeader Model.DispatchCell.
 From Coq Require Import String.
 Open Scope Z_scope.
 
 Definition bad (why : string) : val := L [vsym "bad"%string; vsym why].
 
-Definition op_is (op : bytes) (s : string) : bool := bytes_eqb op (str s).
 
 Definition r_bool (r : res bool) : val := vres (fun b => [vbool b]) r.
 Definition r_int (r : res Z) : val := vres (fun z => [vint z]) r.
@@ -45,7 +44,10 @@ Fixpoint first_some (fs : list (bytes -> list val -> option val)) (op : bytes) (
   end.
 
 (* registered sub-dispatchers (one per model family) *)
-Definition subs : list (bytes -> list val -> option val) := [].
+(* JSON printer used by cells of type JSON; replaced by Model/Json.v when present *)
+Definition jsonp_stub (b : bytes) : res bytes := Err EJson.
+
+Definition subs : list (bytes -> list val -> option val) := [dispatch_cell jsonp_stub].
 
 Definition dispatch (op : bytes) (args : list val) : val :=
   match first_some subs op args with
